@@ -144,4 +144,106 @@ theorem conflict_marker_in_translation_iff (env : Env) (ctx : Ctx) (pre : List E
     has_xmlTags env ctx e .conflictMarkerInTranslation (by decide),
     has_unusualTags env pre e .conflictMarkerInTranslation (by decide), fuzzy, firstMarker, List.findSome?_isSome_iff]
 
+/-- `empty-file` ⇔ the file has no message (and, for MO files, hidden strings are not possible) -/
+theorem empty_file_iff (ctx : Ctx) (file : List Entry) :
+    fileTags ctx file = [.tag .emptyFile []] ↔
+      (∀ e ∈ file, isMessage e = false) ∧ ¬(ctx.isBinary = true ∧ ctx.possibleHiddenStrings = true) := by
+  simp only [fileTags, rule]
+  cases hb : ctx.isBinary <;> cases hh : ctx.possibleHiddenStrings <;> cases ha : file.any isMessage <;> simp_all
+
+/-- for PO and POT files: `empty-file` ⇔ there is no non-obsolete, non-header entry; nothing else is ever file-level -/
+theorem empty_file_po_iff (pot enc : Bool) (file : List Entry) :
+    fileTags (ctxOf pot enc) file = (if ∀ e ∈ file, isMessage e = false then [.tag .emptyFile []] else []) := by
+  simp only [fileTags, rule, ctxOf]
+  cases ha : file.any isMessage <;> simp_all
+
+/-! ### unusual characters -/
+
+/-- an unexplained unusual character of an earlier message's translation -/
+theorem mem_seenBefore (env : Env) (pre : List Entry) (c : Nat) :
+    c ∈ seenBefore env pre ↔
+      ∃ m ∈ pre, isMessage m = true ∧ ∃ s ∈ translations m, c ∈ env.findUnusual s ∧ c ∉ explained env m := by
+  simp [seenBefore, unexplained]
+  constructor
+  · rintro ⟨m, ⟨h1, h2⟩, s, h3, h4, h5⟩; exact ⟨m, h1, h2, s, h3, h4, h5⟩
+  · rintro ⟨m, h1, h2, s, h3, h4, h5⟩; exact ⟨m, ⟨h1, h2⟩, s, h3, h4, h5⟩
+
+/-- what is reported for a translation string: its unusual characters that neither the msgid / msgid_plural explain nor an
+    earlier translation string of this file (an earlier message's, or an earlier one of this message) contains unexplained -/
+theorem mem_reported (env : Env) (pre : List Entry) (e : Entry) (done : List Str) (s : Str) (c : Nat) :
+    c ∈ reported env pre e done s ↔
+      c ∈ env.findUnusual s ∧ c ∉ explained env e ∧ c ∉ seenBefore env pre ∧
+        ¬∃ s' ∈ done, c ∈ env.findUnusual s' ∧ c ∉ explained env e := by
+  simp [reported, unexplained]
+  grind
+
+/-- the reported list is sorted and duplicate-free -/
+theorem reported_sorted (env : Env) (pre : List Entry) (e : Entry) (done : List Str) (s : Str) :
+    (reported env pre e done s).Pairwise (· < ·) := by
+  have := pairwise_toSorted natLt_total
+    ((unexplained env e s).filter fun c => !(seenBefore env pre).contains c && !(done.flatMap (unexplained env e)).contains c)
+  simpa [reported, natLt] using this
+
+/-- the `unusual-character-in-translation` calls of a message: one per translation string that brings a new character, in
+    order, naming exactly the new characters -/
+theorem mem_unusualTags {env : Env} (hs : Sane env) (pre : List Entry) (e : Entry) (x : Emit) :
+    ∀ (rest done : List Str), x ∈ unusualTags env pre e done rest ↔
+      ∃ d s r names, rest = d ++ s :: r ∧ reported env pre e (done ++ d) s ≠ [] ∧
+        ucNames env.charName (reported env pre e (done ++ d) s) = some names ∧
+        x = tagR env.flag.db e tplColon .unusualCharacterInTranslation [.safe names]
+  | [], done => by simp [unusualTags]
+  | s :: rest, done => by
+    have ih := mem_unusualTags hs pre e x rest (done ++ [s])
+    simp only [unusualTags, List.mem_append, ih]
+    constructor
+    · rintro (h | ⟨d, s', r, names, h1, h2, h3, h4⟩)
+      · split at h
+        · simp at h
+        · rename_i hne
+          simp only [unusualTag] at h
+          split at h
+          · rename_i names hn
+            exact ⟨[], s, rest, names, by simp, by simpa using hne, by simpa using hn, by simpa using h⟩
+          · simp at h
+      · exact ⟨s :: d, s', r, names, by simp [h1], by simpa using h2, by simpa using h3, h4⟩
+    · rintro ⟨d, s', r, names, h1, h2, h3, h4⟩
+      cases d with
+      | nil =>
+        simp only [List.nil_append, List.cons.injEq] at h1
+        obtain ⟨rfl, rfl⟩ := h1
+        left
+        simp only [List.append_nil] at h2 h3
+        have : (reported env pre e done s).isEmpty = false := by simpa using h2
+        simp [this, unusualTag, h3, h4]
+      | cons a d =>
+        simp only [List.cons_append, List.cons.injEq] at h1
+        obtain ⟨rfl, rfl⟩ := h1
+        right
+        exact ⟨d, s', r, names, rfl, by simpa using h2, by simpa using h3, h4⟩
+
+/-- `unusual-character-in-translation` ⇔ a charset is usable and some translation string has an unusual character that
+    is not explained by the msgid and was not reported earlier in this file (NOT gated by fuzzy) -/
+theorem unusual_character_in_translation_iff {env : Env} (hs : Sane env) (ctx : Ctx) (pre : List Entry) (e : Entry) :
+    has .unusualCharacterInTranslation (entryTags env ctx pre e) = true ↔
+      isMessage e = true ∧ ctx.hasEncoding = true ∧
+        ∃ d s r, translations e = d ++ s :: r ∧ reported env pre e d s ≠ [] := by
+  rw [has_entryTags]
+  simp only [has_flagTags_false env.flag e .unusualCharacterInTranslation (by decide),
+    has_xmlTags env ctx e .unusualCharacterInTranslation (by decide)]
+  have key : has .unusualCharacterInTranslation (unusualTags env pre e [] (translations e)) = true ↔
+      ∃ d s r, translations e = d ++ s :: r ∧ reported env pre e d s ≠ [] := by
+    simp only [has, List.any_eq_true]
+    constructor
+    · rintro ⟨x, hx, _⟩
+      obtain ⟨d, s, r, names, h1, h2, _, _⟩ := (mem_unusualTags hs pre e x _ _).mp hx
+      exact ⟨d, s, r, h1, by simpa using h2⟩
+    · rintro ⟨d, s, r, h1, h2⟩
+      have hall : ∀ c ∈ reported env pre e d s, (env.charName c).isSome := by
+        intro c hc
+        exact hs.names s c ((mem_reported env pre e d s c).mp hc).1
+      obtain ⟨names, hn⟩ := Option.isSome_iff_exists.mp (ucNames_isSome env.charName _ hall)
+      refine ⟨_, (mem_unusualTags hs pre e _ _ _).mpr ⟨d, s, r, names, h1, by simpa using h2, by simpa using hn, rfl⟩, ?_⟩
+      simp
+  simp [key]
+
 end I18n.Props.C16
